@@ -30,7 +30,8 @@ CONFIGS = [
     ('hierarchical', 'b', 'elim'), ('hierarchical', 'c', 'erase'),
     ('hierarchical', 'd', 'mix'), ('hybrid', 'a', 'core'),
     ('hybrid', 'c', 'erase'), ('hybrid', 'b', 'elim'),
-    ('hierarchical', 'e', 'arith'),
+    ('hierarchical', 'e', 'arith'), ('hierarchical', 'f', 'late'),
+    ('hybrid', 'f', 'late'),
 ]
 
 
